@@ -500,7 +500,8 @@ static void mode_lobpcg(const Desc& d)
             solver.setPreconditioner(T);
         }
         const int maxit = (c % 7 == 6) ? 2 : 200;
-        const double tol = (c % 2) ? 1e-6 : 1e-7;
+        // c % 6 == 4: a tight tolerance (tol * n below sqrt(eps)): the active residual / direction blocks get B-norms below 1e-8
+        const double tol = (c % 6 == 4) ? 1e-10 : ((c % 2) ? 1e-6 : 1e-7);
         int thr = 0;
         {
             Line b("LobBegin");
@@ -761,8 +762,14 @@ static void mode_davidson(const Desc& d)
         // SmallestMagn for one-signed spectra
         if (rule == 4 && c % 3 == 0)
             rule = 7;
-        const double tol = (c % 2) ? 1e-6 : 1e-9;
+        double tol = (c % 2) ? 1e-6 : 1e-9;
         const int guess = (c % 6 == 5) ? 1 : 0;
+        if (c % 8 == 4 && !d.i("dec", 0))
+        {
+            // a tolerance tighter than the default of compute_with_guess(), on a matrix of norm about one so that it is attainable
+            A /= (LD) n;
+            tol = (c % 16 == 4) ? 1e-12 : 1e-13;
+        }
         int init = 0, maxs = 0, corr = 0;
         if (c % 4 == 2)
         {
